@@ -169,3 +169,14 @@ def pmap(fn, items, jobs, chunksize=None, init=None, initargs=()):
 
 def digest(obj):
     return hashlib.blake2b(repr(obj).encode(), digest_size=16).digest()
+
+
+def pmap_fresh(fn, items, jobs):
+    """Like pmap, but every item runs in a brand-new worker process forked from the harness' main process
+    (maxtasksperchild=1): whatever module-level / class-level state the code under test accumulates while serving one
+    item cannot leak into another item.  Used for call-history clauses ('state after serving A must not change B')."""
+    items = list(items)
+    if not items:
+        return []
+    with REAL_POOL(min(jobs, len(items)), maxtasksperchild=1) as p:
+        return p.map(fn, items, 1)
